@@ -376,6 +376,61 @@ def scenario_hostname(ck, stats, hl):
     sb.cleanup()
 
 
+def scenario_tilde(ck, stats, E):
+    """configuration strings beginning with ~ whose expansion is E characters long: maildir path, move destination
+    (both judged at configuration time with -n) and an isdirectory path with directories at the truncations"""
+    sb = mdrun.Sandbox()
+    src = sb.maildir('src'); dst = sb.maildir('dst')
+    home = sb.root + '/h'
+    os.makedirs(home)
+    rest_len = E - len(home) - 1
+    comps = []
+    need = rest_len
+    while need > 0:
+        take = min(need, 200)
+        if need - take == 1:
+            take -= 1
+        comps.append('t' * take)
+        need -= take
+        if need > 0:
+            need -= 1
+    rest = '/'.join(comps)
+    if len(rest) != rest_len:
+        sb.cleanup(); return
+    full = home + '/' + rest
+    fits = E < PATH_MAX
+    for kind, conf in (('maildir path', b'maildir "~/%s" {\n match all move "%s"\n}\n' % (rest.encode(), dst.encode())),
+                       ('move destination', b'maildir "%s" {\n match all move "~/%s"\n}\n' % (src.encode(), rest.encode())),
+                       ('isdirectory path', b'maildir "%s" {\n match isdirectory "~/%s" move "%s"\n}\n' % (src.encode(), rest.encode(), dst.encode()))):
+        cp = sb.write_conf(conf)
+        rc, out, err = sb.run(['-n'], conf=cp, env={'HOME': home})
+        stats['binary'] += 1
+        if fits and rc != 0:
+            ck.violation('a %s that expands to %d characters (fits) is rejected at configuration time: %r' % (kind, E, err[-150:]),
+                         {'scenario': 'tilde', 'length': E, 'kind': kind})
+        if not fits and rc == 0:
+            ck.violation('a %s that expands to %d characters (does not fit PATH_MAX) is accepted at configuration time' % (kind, E),
+                         {'scenario': 'tilde', 'length': E, 'kind': kind})
+    # the isdirectory path at run time, with directories at the truncations
+    for p in {full, full[:PATH_MAX - 1], full[:PATH_MAX - 2]}:
+        try:
+            makedirs_long(p.rstrip('/'))
+        except OSError:
+            pass
+    sb.add(src, 'new', b'To: a\n\nb\n')
+    cp = sb.write_conf(b'maildir "%s" {\n match isdirectory "~/%s" move "%s"\n}\n' % (src.encode(), rest.encode(), dst.encode()))
+    rc, out, err = sb.run([], conf=cp, env={'HOME': home})
+    stats['binary'] += 1
+    moved = sb.snapshot(dst)
+    if not fits and (rc == 0 or moved):
+        ck.violation('isdirectory "~/..." expanding to %d characters: exit %d, %d message(s) moved - looked up under a shortened path' % (E, rc, len(moved)),
+                     {'scenario': 'tilde', 'length': E, 'kind': 'isdirectory run'})
+    if fits and (rc != 0 or len(moved) != 1):
+        ck.violation('isdirectory "~/..." expanding to %d characters (fits, the directory exists): exit %d, %d moved' % (E, rc, len(moved)),
+                     {'scenario': 'tilde', 'length': E, 'kind': 'isdirectory run'})
+    rmtree_long(sb.root)
+
+
 def scenario_env(ck, stats, var, L):
     """HOME / TMPDIR of length L: "~/x" destination resp. stdin spool directory"""
     sb = mdrun.Sandbox()
@@ -464,6 +519,8 @@ def run(ck):
     fixed = len('1700000000.4242_6.') + len(':2,')
     for hl in list(range(NAME_MAX - fixed - 4, NAME_MAX - fixed + 5, 1)) + [250, 254, 255, 256, 257, 300]:
         scenario_hostname(ck, stats, hl)
+    for E in range(PATH_MAX - 3, PATH_MAX + 3):
+        scenario_tilde(ck, stats, E)
     for L in range(PATH_MAX - w, PATH_MAX + 2, step * 2):
         scenario_env(ck, stats, 'HOME', L)
         scenario_env(ck, stats, 'TMPDIR', L)
@@ -471,7 +528,7 @@ def run(ck):
         'evaluations': stats['evals'] + stats['binary'],
         'distinct_nontrivial': len(stats['nontrivial']),
         'rule': 'pathslice: every path of <= %d components from {"", a, bc, new, md.x} (absolute/relative, trailing slash, empty components) x beg,end in a symmetric '
-                'range x buffer sizes {0,1,2,64,len-1,len,len+1}; pathjoin: lengths around the buffer size; binary: maildir path, interpolated destination, interpolated isdirectory path (directories at the intended path and at its truncations), host name, '
+                'range x buffer sizes {0,1,2,64,len-1,len,len+1}; pathjoin: lengths around the buffer size; binary: maildir path, interpolated destination, interpolated isdirectory path (directories at the intended path and at its truncations), ~-expanded maildir / destination / isdirectory strings of every length PATH_MAX-3 .. PATH_MAX+2 (judged with -n and at run time), host name, '
                 'HOME and TMPDIR at every (quick: every other) length in a window around PATH_MAX / NAME_MAX with decoy maildirs at truncations. '
                 'non-trivial = the reference returns a string; distinct = distinct requests' % (4 if ck.tier == 'quick' else 5),
         'exhaustive': True,
@@ -507,6 +564,8 @@ def replay(ck, rp):
         scenario_hostname(ck, stats, rp['length'])
     elif sc in ('HOME', 'TMPDIR'):
         scenario_env(ck, stats, sc, rp['length'])
+    elif sc == 'tilde':
+        scenario_tilde(ck, stats, rp['length'])
     else:
         return 1
     for v in ck.violations:
